@@ -5,6 +5,7 @@ import (
 	"fmt"
 	"sort"
 	"strconv"
+	"sync"
 	"time"
 
 	"github.com/alibaba/RedisShake/pkg/libs/log"
@@ -291,6 +292,66 @@ func c14statesChild(raw json.RawMessage, scratch string) {
 			}
 			if bad {
 				break
+			}
+		}
+		// every source of a multi-source sync loads its checkpoint at start-up, at the same time, from the same target
+		srcs := map[string]bool{}
+		for _, d := range st.DBs {
+			for _, f := range d.Fields {
+				srcs[f.Source] = true
+			}
+		}
+		if len(srcs) >= 2 && r.NViolations() == 0 {
+			srv := buildTarget(st)
+			tcp.SetServer(srv)
+			type ret struct {
+				own  string
+				run  string
+				off  int64
+				db   int
+				err  error
+				want c14expect
+			}
+			var rets []*ret
+			for sname := range srcs {
+				st2 := *st
+				st2.Own = sname
+				rets = append(rets, &ret{own: sname, want: reference(&st2)})
+			}
+			var wg sync.WaitGroup
+			for k, x := range rets {
+				wg.Add(1)
+				go func(k int, x *ret) {
+					defer wg.Done()
+					x.run, x.off, x.db, x.err = checkpoint.LoadCheckpoint(k, x.own, []string{tcp.Addr}, "auth", "", st.Name, false, false)
+				}(k, x)
+			}
+			wg.Wait()
+			r.Count("concurrent_multi_source_loads", 1)
+			after := srv.Snapshot()
+			for _, x := range rets {
+				rep1 := map[string]interface{}{"state": st, "loading_source": x.own, "returned": fmt.Sprintf("runid=%q offset=%d db=%d err=%v", x.run, x.off, x.db, x.err)}
+				switch {
+				case x.want.refuse:
+					if x.err == nil {
+						r.Violationf("C14|concurrent-sources|outcome=old-version-accepted", rep1, "source %q: newest checkpoint has version %d < 1 but was accepted while %d sources loaded at the same time", x.own, x.want.version, len(rets))
+					}
+				case x.err != nil:
+					r.Violationf("C14|concurrent-sources|outcome=unexpected-error", rep1, "source %q: LoadCheckpoint failed while %d sources loaded at the same time: %v", x.own, len(rets), x.err)
+				case x.want.none:
+					if x.off != -1 {
+						r.Violationf("C14|concurrent-sources|outcome=checkpoint-invented", rep1, "source %q has no checkpoint but got offset %d", x.own, x.off)
+					}
+				case x.off != x.want.offset || x.run != x.want.runid || x.db != x.want.db:
+					r.Violationf("C14|concurrent-sources|outcome=wrong-checkpoint", rep1, "source %q got (%q,%d,db %d) while %d sources loaded at the same time; its newest checkpoint is (%q,%d,db %d)", x.own, x.run, x.off, x.db, len(rets), x.want.runid, x.want.offset, x.want.db)
+				default:
+					if x.want.db >= 0 {
+						m := hashAsMap(after[x.want.db][st.Name])
+						if m[x.own+"-offset"] != strconv.FormatInt(x.want.offset, 10) {
+							r.Violationf("C14|concurrent-sources|outcome=chosen-checkpoint-cleared", rep1, "source %q: its chosen checkpoint (db %d, offset %d) is gone after %d sources loaded at the same time (field now %q)", x.own, x.want.db, x.want.offset, len(rets), m[x.own+"-offset"])
+						}
+					}
+				}
 			}
 		}
 		cls := "none"
